@@ -56,3 +56,36 @@ def spec(self, source_error):
   return StagingError(self.get_message())
 '''))
 
+
+  # property C12: "the reported line is the line of the original statement".  The parsed text of an entity starts at
+  # its FIRST DECORATOR when it has one (inspect.getsourcelines), else at the def line, and context_lineno is the file
+  # line of that first text line: a node on line l of the parsed text is on file line
+  # context_lineno + (l - line of the first text line).  Linear integer arithmetic, all inputs.
+  w.add_class(ClassInfo('LinedNode', fields={'lineno': 'int'}))
+  w.add_class(ClassInfo('RootNode', fields={'decorator_list': 'List[LinedNode]', 'lineno': 'int', 'col_offset': 'int'}))
+  w.add_class(ClassInfo('OriginResolver', module='malt.pyct.origin_info',
+                        fields={'_lineno_offset': 'int', '_col_offset': 'int', '_source_lines': 'Any', '_comments_map': 'Any',
+                                '_filepath': 'Any', '_function_stack': 'List[Any]'}))
+  DECORATED = ('(hasattr(root_node, "decorator_list") and len(root_node.decorator_list) > 0 and '
+               'hasattr(root_node.decorator_list[0], "lineno"))')
+  w.add(Contract(
+      'malt.pyct.origin_info.OriginResolver.__init__', serves=['C12'],
+      types={'root_node': 'RootNode', 'source_lines': 'Any', 'comments_map': 'Any', 'context_lineno': 'int',
+             'context_col_offset': 'int', 'filepath': 'Any'},
+      modifies=['self._lineno_offset', 'self._col_offset', 'self._source_lines', 'self._comments_map', 'self._filepath',
+                'self._function_stack'],
+      ensures=[
+          # the first line of the parsed text (first decorator, else the def) is file line context_lineno
+          'implies(%s, root_node.decorator_list[0].lineno + self._lineno_offset == context_lineno)' % DECORATED,
+          'implies(not %s, root_node.lineno + self._lineno_offset == context_lineno)' % DECORATED,
+          'root_node.col_offset + self._col_offset == context_col_offset',
+          'self._filepath is filepath', 'self._source_lines is source_lines', 'self._comments_map is comments_map',
+          'len(self._function_stack) == 0',
+      ]))
+  w.add(Contract(
+      'malt.pyct.origin_info.OriginResolver._absolute_lineno', serves=['C12'], types={'lineno': 'int', 'return': 'int'},
+      modifies=[], ensures=['result == lineno + self._lineno_offset']))
+  w.add(Contract(
+      'malt.pyct.origin_info.OriginResolver._absolute_col_offset', serves=['C12'], types={'col_offset': 'int', 'return': 'int'},
+      modifies=[], ensures=['result == col_offset + self._col_offset'],
+      assumes=['the None column (nodes without col_offset -> 0) is outside the typed contract']))
